@@ -73,8 +73,14 @@ M("C13", "par-unordered-map", PAR, "fitnesses = pool.map(mapper, pending)", "fit
 M("C13", "eval-genotype-not-phenotype", EAPI, "phenotype = individual.get_phenotype()", "phenotype = individual.genotype", "C13.R3")
 M("C13", "default-aggregate-sign", PRB, "sum(m and -fit or +fit for (fit, m) in zip(components, self.minimize))",
   "sum(m and +fit or -fit for (fit, m) in zip(components, self.minimize))", "C13.R3")
-M("C13", "default-aggregate-bool-sign", PRB, "sum(-fit if self.minimize else fit for fit in components)",
-  "sum(fit for fit in components)", "C13.R3")
+# the bool branch of the default aggregate is dead code (evaluate turns a bool 'minimize' into a list before the aggregate
+# runs), so changing only that branch is an equivalent mutant: the interpreted model must stay silent ...
+M("C13", "twin-dead-bool-branch-of-aggregate", PRB, "sum(-fit if self.minimize else fit for fit in components)",
+  "sum(fit for fit in components)", "", expect="silent")
+# ... and fire when the lazy initialisation that makes it dead is removed together with the sign
+M("C13", "default-aggregate-bool-sign-live", PRB, "sum(-fit if self.minimize else fit for fit in components)",
+  "sum(fit for fit in components)", "C13.R3",
+  extra=[(PRB, "                self.minimize = [bool(self.minimize) for _ in multiple]\n", "                pass\n")])
 M("C13", "uncounted-evaluate-in-elitism", "geneticengine/algorithms/gp/operators/elitism.py",
   "        candidates = list(population)\n", "        candidates = list(population)\n        for c in candidates:\n            c.set_fitness(problem, problem.evaluate(c.get_phenotype()))\n", "C13.R4")
 M("C13", "ff-invoked-twice", PRB, 'single = self.ff["default_aggregate"](multiple)',
